@@ -8,7 +8,9 @@ import (
 
 	"github.com/hujm2023/go-sms-protocol/packet"
 	"github.com/hujm2023/go-sms-protocol/smgp"
+	"github.com/hujm2023/go-sms-protocol/smgp/smgp30"
 	"github.com/hujm2023/go-sms-protocol/smpp"
+	"github.com/hujm2023/go-sms-protocol/smpp/smpp34"
 	"github.com/hujm2023/go-sms-protocol/verifhook"
 
 	"verif/sim/core"
@@ -90,7 +92,10 @@ func installReorder(r *core.Run) func() {
 		if moved {
 			r.Fault("emission_order")
 		}
-		return joinTriplets(ts)
+		// written back into the library's own buffer (same triplets, same length): what the caller receives is
+		// the memory the library chose to return, so its ownership stays observable
+		copy(b, joinTriplets(ts))
+		return b
 	}
 	return func() { verifhook.ReorderTripletsFn = canonicalTriplets }
 }
@@ -103,7 +108,8 @@ func canonicalTriplets(b []byte) []byte {
 		return b
 	}
 	sort.SliceStable(ts, func(i, j int) bool { return ts[i].Tag < ts[j].Tag })
-	return joinTriplets(ts)
+	copy(b, joinTriplets(ts)) // in place: see installReorder
+	return b
 }
 
 func init() { verifhook.ReorderTripletsFn = canonicalTriplets }
@@ -291,6 +297,34 @@ func optRoundTrip(r *core.Run) {
 		r.Fail("C16", "roundtrip", "smgp.ReadOptions", "error", "parsing the container's own serialisation failed: %v", rd.Error())
 	} else if d := setDiff(want, optSet(b2)); d != "" {
 		r.Fail("C16", "roundtrip", "smgp.ReadOptions", "set", "parse(serialise(S)) != S: %s", d)
+	}
+	// the two images are kept while other containers are serialised and a PDU is encoded; parsing them afterwards
+	// must still yield the set (a serialisation is the caller's from the moment it is returned)
+	serSnap, oserSnap := append([]byte(nil), ser...), append([]byte(nil), oser...)
+	r.Call("later serialisations", func() {
+		var t2 smpp.TLVs
+		var o2 smgp.Options
+		for i := 0; i < 1+c.Intn(3); i++ {
+			v := c.Blob(1+c.Intn(40), "any")
+			t2.SetTLV(smpp.NewTLV(uint16(0x2000+i), v))
+			o2.Add(smgp.NewOption(smgp.Tag(0x2000+i), v))
+		}
+		x, y := t2.Bytes(), o2.Serialize()
+		for i := range x {
+			x[i] = 0xC3
+		}
+		for i := range y {
+			y[i] = 0xC3
+		}
+		_ = smpp34.NewEnquireLinkReqBytes(uint32(c.Intn(1 << 16)))
+		_ = smgp30.NewActiveTestPacket(uint32(c.Intn(1 << 16)))
+	})
+	r.Probe("serialisation_retained")
+	if !bytes.Equal(ser, serSnap) {
+		r.Fail("C16", "image-changed-later", "smpp.TLVs.Bytes", "retained", "a serialisation of %d triplets changed after later serialisations / encodes", len(got))
+	}
+	if !bytes.Equal(oser, oserSnap) {
+		r.Fail("C16", "image-changed-later", "smgp.Options.Serialize", "retained", "a serialisation of %d triplets changed after later serialisations / encodes", len(ogot))
 	}
 }
 
